@@ -246,39 +246,12 @@ def order_correspondence(ck, n):
 
 
 
-CONVS = {3, 4, 67}
 WRITER_READER_MODULES = {"tflite_writer", "tflite_mapping", "tflite_reader", "reader_util"}
 
 
 def classify(kind, detail, src, opts):
-    """stable key of the known finding that explains this problem, or None. `src` = fbwalk dict of the source model."""
-    sg = src["subgraphs"][0]
-    if kind.endswith("-quantisation") and "--force-symmetric-int-weights" in opts:
-        mm = re.search(r" ([0-9a-f]+)$", detail)
-        if mm:
-            name = bytes.fromhex(mm.group(1)).decode("utf-8", "replace")
-            for op in sg["operators"]:
-                if src["operator_codes"][op["opcode_index"]]["builtin"] in CONVS and len(op["inputs"]) > 1 and op["inputs"][1] >= 0:
-                    w = sg["tensors"][op["inputs"][1]]
-                    if w["name"] == name and w["quant"] and any(z != 0 for z in w["quant"]["zero_point"]):
-                        return "quantisation@force-symmetric-int-weights-before-placement"
-    m = re.match(r"operator (\d+) \(builtin (\d+)\)", detail)
-    builtin = int(m.group(2)) if m else None
-    if kind in ("interface-input-count", "interface-output-count"):
-        lst = sg["inputs"] if "input" in kind else sg["outputs"]
-        mm = re.match(r"source (\d+) output (\d+)", detail)
-        if mm and len(lst) == int(mm.group(1)) and len(dict.fromkeys(lst)) == int(mm.group(2)):
-            return "interface-count@duplicate-subgraph-io-entries-removed"
-    if kind == "interface-output-name":
-        mm = re.search(r"position \d+: ([0-9a-f]*) vs ([0-9a-f]*)", detail)
-        if mm:
-            a, b = (bytes.fromhex(x).decode("utf-8", "replace") for x in mm.group(1, 2))
-            for op in sg["operators"]:
-                if src["operator_codes"][op["opcode_index"]]["builtin"] in (23, 97, 49) and len(op["outputs"]) == 1:
-                    r = sg["tensors"][op["outputs"][0]]
-                    ins = [sg["tensors"][i] for i in op["inputs"] if i >= 0 and not src["buffers"][sg["tensors"][i]["buffer"]]]
-                    if r["name"] == a and len(ins) == 1 and ins[0]["name"] == b and ins[0]["shape"] == r["shape"]:
-                        return "interface-output-name@identity-operator-bypassed-at-subgraph-output"
+    """stable key of the known finding that explains this problem, or None. All C11 findings recorded so far have been
+    repaired in /repo (see the `fixed:` lines of known_findings.txt), so every Spec rejection is a plain violation."""
     return None
 
 
@@ -301,7 +274,7 @@ def replay(ck, path):
     print("verdict:", ans)
     if ans.startswith("bad"):
         src = fbwalk.parse(data)
-        probs = [p.split("|", 1) for p in ans.split(" ", 8)[8].split(" ~ ")]
+        probs = [p.split("|", 1) for p in ans.split(" ", 7)[7].split(" ~ ")]
         for kind, detail in probs:
             ck.violation(f"{kind}: {detail[:200]}", dict(r, verdict=ans), key=classify(kind, detail, src, r["opts"]))
     ck.finish({"evaluations": 1, "distinct_nontrivial": 1, "rule": "replay"})
@@ -365,16 +338,15 @@ def main():
     nontrivial = set()
     for o, ans, line in zip(owners, answers, lines):
         programs += 1
-        m = re.match(r"(ok|bad|pre) preserved=(\d+) absorbed=(\d+) folded=(\d+) bypassed=(\d+) dead=(\d+) ethosu=(\d+) n=(\d+) ?(.*)", ans)
+        m = re.match(r"(ok|bad|pre) preserved=(\d+) absorbed=(\d+) folded=(\d+) dead=(\d+) ethosu=(\d+) n=(\d+) ?(.*)", ans)
         if not m:
             raise common.InfraError("unexpected preserve answer: " + ans[:300] + " for " + line[:300])
-        status, pres, absd, fold, byp, dead, eth = m.group(1), *map(int, m.group(2, 3, 4, 5, 6, 7))
-        problems_text = m.group(9)
+        status, pres, absd, fold, dead, eth = m.group(1), *map(int, m.group(2, 3, 4, 5, 6))
+        problems_text = m.group(8)
         ck.count("verdict_" + status)
         ck.count("ops_preserved", pres)
         ck.count("ops_absorbed", absd)
         ck.count("ops_folded", fold)
-        ck.count("ops_bypassed", byp)
         ck.count("ops_dead", dead)
         ck.count("ethosu_ops", eth)
         if pres and eth:
@@ -434,7 +406,8 @@ def main():
     }, assumptions=["operators are identified by the names of their output tensors (source names must be unique; networks whose source "
                     "has duplicate names are counted as outside the domain)",
                     "an absent option table equals an empty one; trailing absent operands are insignificant; operators that reach no "
-                    "output may disappear; SHAPE and constant-only operators may be folded into a constant of the same description"])
+                    "output may disappear; SHAPE and constant-only operators may be folded into a constant of the same description; "
+                    "a scale without zero-point vector means zero point 0; a quantisation table without scale and zero point means none"])
 
 
 def replay_of(o):
